@@ -139,6 +139,15 @@ def tree():
     put('BASE/root/index.html', OUT_MARK)             # an ancestor's name in another letter case
     put('BASE/root/secret.txt', OUT_MARK)
     put('Base/ROOT/secret.txt', OUT_MARK)
+    # directories whose literal names look like shell expansions, and the decoy tree HOME / the variables point at:
+    # a root is a path, it is not expanded
+    for d in ('~', '~x', '~root', '$HOME', '${DECOY}', '$DECOY', 'a$DECOYX', '%DECOY%'):
+        put('base/' + d + '/index.html', IN_MARK)
+        put('base/' + d + '/pub/page.txt', IN_MARK)
+    put('home/index.html', OUT_MARK)
+    put('home/secret.txt', OUT_MARK)
+    put('home/pub/page.txt', OUT_MARK)
+    put('home/pub/secret.txt', OUT_MARK)
     # a tree with the SAME relative names beside the application script (sys.modules['__main__'].__file__), for
     # relative roots: the root is resolved against the working directory, not against the script's directory
     put('scriptdir/main.py', OUT_MARK)
@@ -177,6 +186,8 @@ ROOTS = [
     ('/{T}/base/root', '{T}'), ('//{T}/base/root', '{T}'), ('{T}/base/nonexistent', '{T}'),
     ('{T}/base/root\\', '{T}'), ('{T}//base///root', '{T}'), ('{T}/base', '{T}'), ('{T}', '/'),
     ('../../../../../../../../../..', '{T}/base/work'), ('root', '/'), ('public', '{T}/base'), ('root', '{T}/scriptdir'),
+    ('~', '{T}/base'), ('~/', '{T}/base'), ('~/pub', '{T}/base'), ('~x', '{T}/base'), ('$HOME', '{T}/base'), ('${DECOY}/pub', '{T}/base'),
+    ('{T}/base/$DECOY', '{T}'), ('a$DECOYX', '{T}/base'), ('./~', '{T}/base'),
     ('{T}/base/Root', '{T}'), ('{T}/BASE/root', '{T}'), ('Root', '{T}/base'),
     # the root names an existing REGULAR FILE: nothing lies inside it, its siblings are outside
     ('{T}/base/root/index.html', '{T}'), ('{T}/base/root/index.html/', '{T}'), ('root/index.html', '{T}/base'),
@@ -192,9 +203,12 @@ PREFIXES = ['', '', '', '/', '//', '///', '\\', '{T}/', '{T}/base/root2/', '/etc
             '..\\', './/', '{T}/base/root/../root2/']
 
 
-def mk(root, cwd, name, method='GET', rng=None, ims=None, deny=(), kw=None, root_kind='str', main_dir=None, entry='pkg'):
+def mk(root, cwd, name, method='GET', rng=None, ims=None, deny=(), kw=None, root_kind='str', main_dir=None, entry='pkg', env=None):
     return dict(root=root, cwd=cwd, name=name, method=method, range=rng, ims=ims, deny=sorted(deny), kw=kw or {},
-                root_kind=root_kind, main_dir=main_dir, entry=entry)
+                root_kind=root_kind, main_dir=main_dir, entry=entry, env=env or {})
+
+
+ENVX = dict(HOME='{T}/home', DECOY='{T}/home', DECOYX='/../../home')
 
 
 def corpus():
@@ -231,6 +245,14 @@ def corpus():
         mk(A, '{T}', 'index.html', deny=['isfile']),
         mk(A, '{T}', 'index.html', deny=['exists']),
         mk(A, '{T}', '../root2/secret.txt', method='HEAD', rng='bytes=0-1'),
+        # '~' and '$NAME' in a root are literal directory names (seeded change C16/16); HOME / DECOY point at a decoy tree
+        mk('~', '{T}/base', 'index.html', env=ENVX), mk('~/', '{T}/base', 'secret.txt', env=ENVX), mk('~/pub', '{T}/base', 'page.txt', env=ENVX),
+        mk('~/pub', '{T}/base', 'secret.txt', env=ENVX), mk('~x', '{T}/base', 'index.html', env=ENVX), mk('~root', '{T}/base', 'index.html', env=ENVX),
+        mk('$HOME', '{T}/base', 'secret.txt', env=ENVX), mk('$HOME', '{T}/base', 'index.html', env=ENVX), mk('${DECOY}', '{T}/base', 'secret.txt', env=ENVX),
+        mk('$DECOY/pub', '{T}/base', 'secret.txt', env=ENVX), mk('{T}/base/$DECOY', '{T}', 'index.html', env=ENVX),
+        mk('a$DECOYX', '{T}/base', 'index.html', env=ENVX), mk('%DECOY%', '{T}/base', 'index.html', env=ENVX),
+        mk('~', '{T}/base', 'secret.txt', env=ENVX, entry='module'), mk('~', '{T}/base', '../~x/index.html', env=ENVX),
+        mk('$HOME', '{T}/base', 'secret.txt', env=ENVX, root_kind='path'),
         # a relative root means <cwd>/root, wherever the application script lives (seeded change C16/13)
         mk('root', '{T}/base', 'index.html', main_dir='{T}/scriptdir'), mk('root', '{T}/base', 'only_beside_script.txt', main_dir='{T}/scriptdir'),
         mk('root/', '{T}/base', 'sub/page.txt', main_dir='{T}/scriptdir'), mk('public', '{T}/base', 'secret.txt', main_dir='{T}/scriptdir'),
@@ -270,7 +292,7 @@ def corpus():
     return out
 
 
-GOOD = [['arch.tar.gz'], ['only_beside_script.txt'], ['secret.txt'], ['index.html'], ['sub', 'page.txt'], ['sub', 'deep', 'x.txt'], ['root2', 'inner.txt'], ['a b.txt'],
+GOOD = [['arch.tar.gz'], ['only_beside_script.txt'], ['secret.txt'], ['page.txt'], ['pub', 'secret.txt'], ['index.html'], ['sub', 'page.txt'], ['sub', 'deep', 'x.txt'], ['root2', 'inner.txt'], ['a b.txt'],
         ['back\\slash.txt'], ['emptydir'], ['sub']]
 ESCAPES = [['..', 'root2', 'secret.txt'], ['..', 'root2', 'index.html'], ['..', 'rootX', 'secret.txt'],
            ['..', 'roo', 'secret.txt'], ['..', 'decoy.txt'], ['..', '..', 'top.txt'], ['..', 'root', 'index.html'],
@@ -347,8 +369,9 @@ def gen(rng, n):
                              dict(mimetype='application/x', download=True)])
         main_dir = rng.choice([None, '{T}/scriptdir', '{T}/scriptdir', '{T}/scriptdir/root', '{T}/base', '{T}']) \
             if not root.startswith(('/', '{T}')) else rng.choice([None, None, '{T}/scriptdir'])
+        env = ENVX if ('~' in root or '$' in root or rng.random() < 0.1) else None
         yield mk(root, cwd, name, method, rg, ims, deny, kw, 'path' if rng.random() < 0.15 else 'str', main_dir,
-                 'module' if rng.random() < 0.25 else 'pkg')
+                 'module' if rng.random() < 0.25 else 'pkg', env)
 
 
 def thorough():
@@ -462,10 +485,18 @@ def run_impl(case):
         if case.get('main_dir'):
             # the directory of the application script is an environment parameter like the working directory
             main_mod.__file__ = os.path.join(sub(case['main_dir']), 'main.py')
+        saved_env = {k: os.environ.get(k) for k in (case.get('env') or {})}
+        for k, v in (case.get('env') or {}).items():
+            os.environ[k] = sub(v)
         try:
             with COV:
                 resp = fn(name, root_arg, **(case.get('kw') or {}))
         finally:
+            for k, v in saved_env.items():
+                if v is None:
+                    os.environ.pop(k, None)
+                else:
+                    os.environ[k] = v
             if case.get('main_dir'):
                 if had_file:
                     main_mod.__file__ = saved_file
@@ -655,6 +686,7 @@ PREDICATES = {}
 API_SURFACE = [
     ('static_file(filename, root)', 'covered: names x roots x working directories over a real tree (corpus, gen, thorough)'),
     ('ombott.static_file (package export) vs static_stream.static_file', 'covered by entry=pkg|module'),
+    ('environment (HOME, $VARS) and ~ / $NAME in a root', 'covered by env= with real directories literally named ~, ~x, $HOME, ${DECOY}, ... and a decoy tree at HOME'),
     ('directory of the __main__ script', 'covered by main_dir= (sys.modules[__main__].__file__ set for the call; a same-named tree lies beside it): must not matter'),
     ('root as str / os.PathLike', 'covered by root_kind=str|path (pathlib.Path)'),
     ('root / filename as bytes', 'excluded: TypeError before anything is opened (abspath(bytes) + os.sep)'),
